@@ -1126,6 +1126,17 @@ func (x *fx) slice(i *ssa.Slice) {
 	case *types.Pointer:
 		a := u.Elem().Underlying().(*types.Array)
 		if len(v.Path) > 0 {
+			if x.c.Abstract {
+				// abstracted mode: the slice is an unknown view (its contents are not
+				// tracked) of the right length
+				x.abstracted["slice of an array embedded in a struct (contents not tracked)"] = true
+				r := x.havocVal("embslice", i.Type())
+				if i.Low == nil && i.High == nil {
+					x.assume("(= " + slLen(r.S) + " " + x.idxConst(a.Len()) + ")")
+				}
+				x.defVal(i, r)
+				return
+			}
 			panic(unsupported("slicing an array embedded in a struct"))
 		}
 		x.nilCheck(v, "slice of array")
